@@ -211,36 +211,36 @@ theorem failPost_addError2 (st : St) (a b : String) :
       simp at he; rcases he with rfl | rfl <;> rfl
     exact .inr ⟨st.cur, by simp [St.toks], this.symm⟩
 
-def tpMsg (st : St) : String := "Invalid time specification: \"" ++ st.cur.str ++ "\""
+/-- the current token is one on which `_current_literal()` can leave a message -/
+def BadLit (st : St) : Prop := st.cur.ty = .timePattern ∨ st.cur.ty = .number
 
-theorem currentLiteral_cases {st : St} (h : Inv st) :
+theorem currentLiteral_cases {st : St} (_h : Inv st) :
     (∃ v, currentLiteral st = .ok v st ∧ (v.isSome → st.cur.ty = .number ∨
         st.cur.ty = .literalString ∨ st.cur.ty = .timePattern)) ∨
-    (st.cur.ty = .timePattern ∧ currentLiteral st = .ok none (st.addError (tpMsg st))) ∨
-    (badNum st.cur ∧ currentLiteral st = .raised "ValueError" st) := by
+    (BadLit st ∧ ∃ msg, currentLiteral st = .ok none (st.addError msg)) := by
   unfold currentLiteral
   split
   · rename_i hty
-    have hs : st.cur.str = st.cur.content := by simp [Tok.str, hty, TT.hasString]
-    rw [hs]
-    cases hc : cvalOfNum (parseNumber st.cur.content) with
-    | none => exact .inr (.inr ⟨⟨hty, hc⟩, rfl⟩)
+    cases hc : cvalOfNum (parseNumber st.cur.str) with
+    | none => exact .inr ⟨.inr hty, _, rfl⟩
     | some c => exact .inl ⟨some c, rfl, fun _ => .inl hty⟩
   · rename_i hty
     exact .inl ⟨_, rfl, fun _ => .inr (.inl hty)⟩
   · rename_i hty
     split
     · exact .inl ⟨_, rfl, fun _ => .inr (.inr hty)⟩
-    · exact .inr (.inl ⟨hty, rfl⟩)
+    · exact .inr ⟨.inl hty, _, rfl⟩
   · exact .inl ⟨none, rfl, by simp⟩
+
+theorem badLit_not_name {st : St} (h : BadLit st) : (st.cur.ty != TT.name) = true := by
+  rcases h with h | h <;> (rw [h]; rfl)
 
 theorem currentConstant_cases {st : St} (h : Inv st) :
     (∃ v, currentConstant st = .ok v st ∧ (v.isSome → st.cur.ty = .number ∨
         st.cur.ty = .literalString ∨ st.cur.ty = .timePattern ∨ st.cur.ty = .name)) ∨
-    (st.cur.ty = .timePattern ∧ currentConstant st = .ok none (st.addError (tpMsg st))) ∨
-    (badNum st.cur ∧ currentConstant st = .raised "ValueError" st) := by
+    (BadLit st ∧ ∃ msg, currentConstant st = .ok none (st.addError msg)) := by
   unfold currentConstant
-  rcases currentLiteral_cases h with ⟨v, hv, hty⟩ | ⟨hty, hv⟩ | ⟨hb, hv⟩
+  rcases currentLiteral_cases h with ⟨v, hv, hty⟩ | ⟨hty, msg, hv⟩
   · rw [bind_ok hv]
     cases v with
     | some c =>
@@ -261,22 +261,18 @@ theorem currentConstant_cases {st : St} (h : Inv st) :
         simp only [this, if_true]
         exact .inl ⟨none, rfl, by simp⟩
   · rw [bind_ok hv]
-    refine .inr (.inl ⟨hty, ?_⟩)
+    refine .inr ⟨hty, msg, ?_⟩
     simp only [getSt_bind]
-    have : ((st.addError (tpMsg st)).cur.ty != TT.name) = true := by
-      show (st.cur.ty != TT.name) = true
-      rw [hty]; rfl
+    have : ((st.addError msg).cur.ty != TT.name) = true := badLit_not_name hty
     simp only [this, if_true]
     rfl
-  · exact .inr (.inr ⟨hb, by rw [bind_run, hv]⟩)
 
 theorem currentStr_cases {st : St} (h : Inv st) :
     (∃ s, currentStr st = .ok s st ∧ (s ≠ "" → st.cur.ty = .literalString ∨
         st.cur.ty = .timePattern ∨ st.cur.ty = .name ∨ st.cur.ty = .number)) ∨
-    (st.cur.ty = .timePattern ∧ currentStr st = .ok "" (st.addError (tpMsg st))) ∨
-    (badNum st.cur ∧ currentStr st = .raised "ValueError" st) := by
+    (BadLit st ∧ ∃ msg, currentStr st = .ok "" (st.addError msg)) := by
   unfold currentStr
-  rcases currentConstant_cases h with ⟨v, hv, hty⟩ | ⟨hty, hv⟩ | ⟨hb, hv⟩
+  rcases currentConstant_cases h with ⟨v, hv, hty⟩ | ⟨hty, msg, hv⟩
   · rw [bind_ok hv]
     left
     split
@@ -288,51 +284,44 @@ theorem currentStr_cases {st : St} (h : Inv st) :
       · exact .inr (.inr (.inl a))
     · exact ⟨"", rfl, fun h => absurd rfl h⟩
   · rw [bind_ok hv]
-    exact .inr (.inl ⟨hty, rfl⟩)
-  · exact .inr (.inr ⟨hb, by rw [bind_run, hv]⟩)
+    exact .inr ⟨hty, msg, rfl⟩
 
 /-- composing with `_current_constant()`: when it leaves a message (an invalid time pattern) the
 continuation must fail -/
 theorem spec_bind_currentConstant {K : Option CVal → M β} (hK : ∀ v, Spec t (K v))
-    (hbad : ∀ st, Inv st → st.cur.ty = .timePattern → ∃ msg, K none st = .fail (st.addError msg)) :
+    (hbad : ∀ st, Inv st → BadLit st → ∃ msg, K none st = .fail (st.addError msg)) :
     Spec t (currentConstant >>= K) := by
   refine ⟨fun st h => ?_⟩
-  rcases currentConstant_cases h with ⟨v, hv, _⟩ | ⟨hty, hv⟩ | ⟨hb, hv⟩
+  rcases currentConstant_cases h with ⟨v, hv, _⟩ | ⟨hty, msg0, hv⟩
   · rw [bind_ok hv]; exact (hK v).run st h
   · rw [bind_ok hv]
     obtain ⟨msg, hm⟩ := hbad _ (inv_addError h _) hty
     show (K none _).Good t st
     rw [hm]
     exact failPost_addError2 st _ _
-  · rw [bind_run, hv]
-    exact ⟨rfl, st.cur, by simp [St.toks], hb⟩
 
 theorem spec_bind_currentStr {K : String → M β} (hK : ∀ v, Spec t (K v))
-    (hbad : ∀ st, Inv st → st.cur.ty = .timePattern → ∃ msg, K "" st = .fail (st.addError msg)) :
+    (hbad : ∀ st, Inv st → BadLit st → ∃ msg, K "" st = .fail (st.addError msg)) :
     Spec t (currentStr >>= K) := by
   refine ⟨fun st h => ?_⟩
-  rcases currentStr_cases h with ⟨v, hv, _⟩ | ⟨hty, hv⟩ | ⟨hb, hv⟩
+  rcases currentStr_cases h with ⟨v, hv, _⟩ | ⟨hty, msg0, hv⟩
   · rw [bind_ok hv]; exact (hK v).run st h
   · rw [bind_ok hv]
     obtain ⟨msg, hm⟩ := hbad _ (inv_addError h _) hty
     show (K "" _).Good t st
     rw [hm]
     exact failPost_addError2 st _ _
-  · rw [bind_run, hv]
-    exact ⟨rfl, st.cur, by simp [St.toks], hb⟩
 
 theorem spec_bind_currentLiteral {K : Option CVal → M β} (hK : ∀ v, Spec t (K v))
-    (hbad : ∀ st, Inv st → st.cur.ty = .timePattern → ∃ msg, K none st = .fail (st.addError msg)) :
+    (hbad : ∀ st, Inv st → BadLit st → ∃ msg, K none st = .fail (st.addError msg)) :
     Spec t (currentLiteral >>= K) := by
   refine ⟨fun st h => ?_⟩
-  rcases currentLiteral_cases h with ⟨v, hv, _⟩ | ⟨hty, hv⟩ | ⟨hb, hv⟩
+  rcases currentLiteral_cases h with ⟨v, hv, _⟩ | ⟨hty, msg0, hv⟩
   · rw [bind_ok hv]; exact (hK v).run st h
   · rw [bind_ok hv]
     obtain ⟨msg, hm⟩ := hbad _ (inv_addError h _) hty
     show (K none _).Good t st
     rw [hm]
     exact failPost_addError2 st _ _
-  · rw [bind_run, hv]
-    exact ⟨rfl, st.cur, by simp [St.toks], hb⟩
 
 end Bardolph.ParseTok
